@@ -1,10 +1,6 @@
 //! gixsim — deterministic simulation with fault injection for gitoxide (see /verif/DESIGN.md).
 #![allow(dead_code)]
-mod driver;
-mod fsx;
-mod io;
-mod prng;
-mod rt;
+pub use gixsim_rt::{driver, fsx, io, prng, rt};
 mod scenarios;
 
 use driver::Tier;
@@ -39,7 +35,7 @@ fn main() {
     let seed = arg_val(&args, "--seed").and_then(|s| s.parse().ok()).or(env_seed).unwrap_or(0x5EED);
     let ncpu = std::thread::available_parallelism().map_or(4, |n| n.get());
     let jobs_cli: Option<usize> = arg_val(&args, "--jobs").and_then(|s| s.parse().ok());
-    let jobs = jobs_cli.unwrap_or(ncpu);
+    let _ = ncpu;
     let tier = match arg_val(&args, "--tier").or_else(|| std::env::var("VERIF_TIER").ok()).as_deref() {
         Some("thorough") => Tier::Thorough,
         _ => Tier::Quick,
